@@ -4,7 +4,7 @@
    NOT covered here (explored on the implementation only, see props/c18.py): the text round trip
    parse . display, the JSON round trip of VersionedProgram, CASM equality of round-tripped
    programs and of id-replaced programs. *)
-From C18 Require Import Compress Serde CompressProofs SerdeProofs SizeProofs Corr.
+From C18 Require Import Compress Serde CompressProofs SerdeProofs SizeProofs DebugInfo DebugInfoProofs Corr.
 Local Open Scope N_scope.
 
 (* decompress inverts compress on every vector of big unsigned integers (felts or not).  The only
@@ -74,6 +74,15 @@ Theorem C14_decompress_alloc_bounded : forall pv size bound,
   decompress_alloc pv = Some (size, bound) -> size <= bound /\ bound <= 31 * lenN pv.
 Proof. exact decompress_alloc_bounded. Qed.
 
+(* the debug-info path of ContractClass::extract_sierra_program(true): DebugInfo::extract records
+   the names of the declared ids, DebugInfo::populate puts them back at every occurrence - in the
+   declarations, inside the generic arguments of type and libfunc declarations (types, libfuncs,
+   user functions), in statements and function signatures.  names_consistent (DebugInfo.v): every
+   occurrence of an id carries the name of its declaration; variables and user types carry none. *)
+Theorem C18_debug_info_roundtrip : forall p,
+  names_consistent p = true -> populate (extract p) (strip_debug p) = p.
+Proof. exact populate_extract_strip. Qed.
+
 (* ---- non-vacuity ---- *)
 (* "storage_address_from_base_and_offset" (36 bytes) with its real starknet_keccak *)
 Definition ex_long : bytes :=
@@ -123,6 +132,30 @@ Proof.
     split; vm_compute; reflexivity.
 Qed.
 
+(* a program with a coupon type (user function inside a TYPE declaration), function_call, a
+   libfunc argument and a nested named type, all named consistently *)
+Definition ex_named : program :=
+  let u8 := id_ 0 [117; 56] in
+  let cp := id_ 1 [67; 111; 117; 112; 111; 110; 60; 117; 115; 101; 114; 64; 102; 62] in
+  let f := id_ 0 [102] in
+  let call := id_ 0 [99; 97; 108; 108] in
+  {| type_decls :=
+       [ {| td_id := u8; td_generic := [117; 56]; td_args := []; td_info := None |};
+         {| td_id := cp; td_generic := [67; 111; 117; 112; 111; 110];
+            td_args := [GUserFunc f; GType u8; GLibfunc call; GValue (-1); GUserType (ut_ 5)];
+            td_info := None |} ];
+     libfunc_decls :=
+       [ {| ld_id := call; ld_generic := [99; 97; 108; 108]; ld_args := [GUserFunc f; GType cp] |} ];
+     statements := [ Invocation call [i_ 0] [ {| br_target := Fallthrough; br_results := [i_ 1] |} ];
+                     Return [i_ 1] ];
+     funcs := [ {| f_id := f; f_param_types := [cp]; f_ret_types := [u8];
+                   f_params := [ {| p_id := i_ 0; p_ty := cp |} ]; f_entry := 0 |} ] |}.
+Example C18_example_debug_info :
+  names_consistent ex_named = true
+  /\ negb (program_eqb (strip_debug ex_named) ex_named) = true
+  /\ program_eqb (populate (extract ex_named) (strip_debug ex_named)) ex_named = true.
+Proof. repeat split; vm_compute; reflexivity. Qed.
+
 (* compression: 300 distinct values, 43 of them above 2^251 (code size padded to 512, 27 words
    per felt, 12 packed felts) *)
 Example C18_example_compress :
@@ -136,5 +169,6 @@ Print Assumptions C18_compress_felts.
 Print Assumptions C18_de_ser.
 Print Assumptions C18_sierra_from_to.
 Print Assumptions C18_sierra_to_felts.
+Print Assumptions C18_debug_info_roundtrip.
 Print Assumptions C14_de_total_bounded.
 Print Assumptions C14_decompress_alloc_bounded.
